@@ -145,17 +145,19 @@ def write_xsec_exotransmit(path, wn, T, P_pa, xsec_cm2, order='wavelength-ascend
 CIA_PAIRS = ['H2-H2', 'H2-He', 'N2-N2', 'CO2-CO2', 'N2-H2', 'O2-O2', 'CH4-He']
 
 
-def cia_physical_table(rng):
+def cia_physical_table(rng, interior_gap=False):
     """A HITRAN-style CIA data set: 1..3 disjoint wavenumber ranges, each tabulated at its own subset of the
     temperatures.  Returns (blocks, expected) where blocks = [(range_id, wn[], T, sigma_m5[])] in file order and
     expected = dict(wn, T, x[T, wn]) is the unified table the reader documents: zeros outside a range's own
     temperature span, linear interpolation in T inside it."""
-    nT = int(rng.integers(2, 7))
+    nT = int(rng.integers(3 if interior_gap else 2, 7))
     temps = np.sort(np.round(rng.uniform(40, 3000, nT), 1))
     for i in range(1, nT):
         if temps[i] - temps[i - 1] < 1:
             temps[i] = temps[i - 1] + float(np.round(rng.uniform(5, 200), 1))
-    ngroups = int(rng.integers(1, 4))
+    ngroups = int(rng.integers(2 if interior_gap else 1, 4))
+    gapped = int(rng.integers(0, ngroups)) if interior_gap else -1
+    full = (gapped + 1) % ngroups if interior_gap else 0         # one range carries every temperature of the file
     lo = float(np.round(10 ** rng.uniform(0.5, 2.5), 3))
     groups = []
     shared = False
@@ -168,7 +170,10 @@ def cia_physical_table(rng):
             shared = True
         else:
             lo = float(wn[-1] + np.round(10 ** rng.uniform(0.3, 2.0), 3))
-        if gi == 0 or rng.random() < 0.4:
+        if gi == gapped:
+            # a range that lacks one of the file's temperatures INSIDE its own span (the reader interpolates it)
+            own = np.delete(temps, int(rng.integers(1, nT - 1)))
+        elif gi == full or rng.random() < 0.4:
             own = temps.copy()                                   # tabulated at every temperature
         else:
             k = int(rng.integers(1, nT + 1))
@@ -204,7 +209,7 @@ def cia_physical_table(rng):
     for g in groups:           # (first column, end column, lowest and highest temperature the range is tabulated at)
         spans.append((c, c + len(g['wn']), float(g['temps'].min()), float(g['temps'].max())))
         c += len(g['wn'])
-    return blocks, {'wn': wn_all, 'T': temps, 'x': x, 'ngroups': ngroups, 'groups': spans,
+    return blocks, {'wn': wn_all, 'T': temps, 'x': x, 'ngroups': ngroups, 'groups': spans, 'gapped': gapped,
                     'partial': any(len(g['temps']) < nT for g in groups),
                     'shared_wavenumber': bool(len(np.unique(wn_all)) != len(wn_all))}
 
